@@ -141,7 +141,10 @@ argument in each position `i` satisfies the contract declared by the parameter g
 `i` (the variadic parameter for the tail): its type conforms to the parameter's constraint
 (unless it is dynamically typed, which requires `AllowDynamicType`); it is null only with
 `AllowNull`, unknown only with `AllowUnknown`, dynamically typed only with
-`AllowDynamicType`; and without `AllowMarked` it contains no mark at any depth. -/
+`AllowDynamicType`; and without `AllowMarked` it contains no mark at any depth.
+(`isNull`, `isKnown` are Go's `IsNull`/`IsKnown` of the argument itself — what `AllowNull` and
+`AllowUnknown` are documented to govern; marks are excluded at EVERY depth: `containsMarked`,
+`marksDeep` are `ContainsMarked` and the mark set of `UnmarkDeep`.) -/
 theorem impl_args_satisfy_contract (spec : Spec) (tf : TypeFn) (impl : ImplFn) (args as : List Value) (rt : Ty)
     (hw : ArgsWF args) (h : Event.impl as rt ∈ (call spec tf impl args).2) :
     as.length = args.length ∧
@@ -223,7 +226,43 @@ theorem arg_error_names_first_offender (spec : Spec) (tf : TypeFn) (impl : ImplF
     | null => simp only [hc, if_true, firstFail_of_at hc hat]
     | nonconforming => simp only [hc, if_true, firstFail_of_at hc hat]
 
-/-- What that says about the named argument and those before it, in plain words. -/
+/-- "Otherwise": when the count is acceptable but the arguments do not satisfy the contract —
+some argument fails its checks, or some argument is unknown without `AllowUnknown` — `Impl` is not
+invoked, and the call ends as an argument error, or as a short circuit to an unknown value, or
+(all arguments having passed the checks) with the `Type` callback's own error or panic. -/
+theorem otherwise_arg_error_or_shortcircuit (spec : Spec) (tf : TypeFn) (impl : ImplFn) (args : List Value)
+    (hc : spec.countOK args.length = true) (h : ¬ AllPass spec args ∨ SomeUnknownBlocked spec args) :
+    (∀ as rt, Event.impl as rt ∉ (call spec tf impl args).2) ∧
+    ((∃ k, (call spec tf impl args).1 = .err (.arg k)) ∨
+     (∃ u, (callUnrefined spec tf impl args).1 = .ok u ∧ u.isKnown = false) ∨
+     (AllPass spec args ∧ ∃ e, (∀ t, tf (typeArgs spec args) ≠ .ok t) ∧ (call spec tf impl args).1 = .err e) ∨
+     (tf (typeArgs spec args) = .unmodelled ∧ (call spec tf impl args).1 = .unmodelled)) := by
+  constructor
+  · intro as rt hm
+    obtain ⟨_, hap, hnb, _⟩ := (callbacks_only_for_acceptable_args spec tf impl args).2 as rt hm
+    rcases h with h | h
+    · exact h hap
+    · exact hnb h
+  · rw [call_eq_finish]
+    obtain ⟨k, o, ho, hk⟩ := callUnrefined_case' spec tf impl args
+    rw [ho]
+    have hcontra : ∀ {P : Prop}, AllPass spec args → ¬ SomeUnknownBlocked spec args → P :=
+      fun hap hnb => by rcases h with h | h; exact absurd hap h; exact absurd h hnb
+    cases hk with
+    | count hc' => rw [hc] at hc'; simp at hc'
+    | argError k' f _ hat hne => exact Or.inl ⟨k', by rw [finish_err]⟩
+    | dynShort k' u _ hat hwu => exact Or.inr (Or.inl ⟨u, rfl, (withUnhandled_unknown hwu).2.2.1⟩)
+    | typeErr c _ hap ht => exact Or.inr (Or.inr (Or.inl ⟨hap, _, by simp [ht], by rw [finish_err]⟩))
+    | typePanic w _ hap ht => exact Or.inr (Or.inr (Or.inl ⟨hap, _, by simp [ht], by rw [finish_err]⟩))
+    | typeUnmodelled _ hap ht => exact Or.inr (Or.inr (Or.inr ⟨ht, by rw [finish_unmodelled]⟩))
+    | unkShort rt u _ hap ht hb hwu => exact Or.inr (Or.inl ⟨u, rfl, (withUnhandled_unknown hwu).2.2.1⟩)
+    | implErr rt c _ hap ht hnb hi => exact hcontra hap hnb
+    | implPanic rt w _ hap ht hnb hi => exact hcontra hap hnb
+    | implUnmodelled rt _ hap ht hnb hi => exact hcontra hap hnb
+    | nonconforming rt v w _ hap ht hnb hi hcf => exact hcontra hap hnb
+    | value rt v u _ hap ht hnb hi hcf hwu => exact hcontra hap hnb
+
+/-- What an argument error says about the named argument and those before it, in plain words. -/
 theorem arg_error_offender (spec : Spec) (tf : TypeFn) (impl : ImplFn) (args : List Value) (k : Nat)
     (h : (call spec tf impl args).1 = .err (.arg k)) :
     ∃ p v, spec.paramFor k = some p ∧ args[k]? = some v ∧
@@ -256,22 +295,14 @@ theorem shortcircuit_unknown_checked_type_all_marks (spec : Spec) (tf : TypeFn) 
       ((∃ k, FirstFailAt spec args k .dynamic) ∨ SomeUnknownBlocked spec args) := by
   obtain ⟨k, o, ho, hk⟩ := callUnrefined_case' spec tf impl args
   rw [ho] at h hno
-  have key : ∀ t u, WithUnhandled spec args (Value.unknown t) u →
-      u.ty = t ∧ u.unmark = Value.unknown t ∧ u.isKnown = false ∧ (∀ m, m ∈ u.marks ↔ Unhandled spec args m) := by
-    intro t u hwu
-    refine ⟨hwu.1, hwu.2.1, ?_, fun m => by simpa [Value.unknown, Value.marks, Payload.marks1] using hwu.2.2 m⟩
-    have := congrArg Value.v hwu.2.1
-    simp only [Value.unmark, Value.unknown] at this
-    unfold Value.isKnown Payload.isKnown
-    rw [this]; rfl
   cases hk with
   | dynShort k' u' hc hat hwu =>
     simp only [Out.ok.injEq] at h; subst h
-    obtain ⟨a, b, c, d⟩ := key _ _ hwu
+    obtain ⟨a, b, c, d⟩ := withUnhandled_unknown hwu
     exact ⟨.dyn, by rw [rtfvPub_fail tf hc hat], a, b, c, d, Or.inl ⟨k', hat⟩⟩
   | unkShort rt u' hc hap ht hb hwu =>
     simp only [Out.ok.injEq] at h; subst h
-    obtain ⟨a, b, c, d⟩ := key _ _ hwu
+    obtain ⟨a, b, c, d⟩ := withUnhandled_unknown hwu
     exact ⟨rt, by rw [rtfvPub_pass tf hc hap, ht], a, b, c, d, Or.inr hb⟩
   | value rt v u' hc hap ht hnb hi hcf hwu => exact absurd (by simp) (hno (implArgs spec args) rt)
   | _ => simp at h
